@@ -1,7 +1,8 @@
 """C40 Circuit parameter bookkeeping is consistent.
 
 (M) spec/sys/TapeParams.tla: a heap of tapes with the three parameter views (flat list, par_info, trainable indices),
-    bind_new_parameters addressing by flat index, copy(update), the trainable setter and expansion.  TLC checks on every
+    bind_new_parameters addressing by flat index, copy(update), the trainable setter and expansion.  Operators are trees
+    (Hamiltonian / SProd / Sum / Prod / Adjoint over parametrised operands, nested); a parameter is addressed by its path.  TLC checks on every
     reachable heap: Consistent, BindCurrentIdentity, BindExact, ExpandOK, CopyEqual and the action property Frame.
 (C) spec -> code (REPLAY): TapeParamsGen.tla emits every history up to the bound (plus deeper -simulate histories) with
     the expected projection of every created / modified tape; the driver performs the same calls on real
@@ -347,9 +348,9 @@ BASES = [
     _tape([_op("CNOT")], [_op("probs")], "{}"),
     _tape([_op("U3", 1, 2, 3), _op("IsingXX", 4)], [_op("Z")], "{0,3}"),
     _tape([_op("RZ", 1)], [_sprod(2)], "{1}", 10),
-    # operands that carry several parameters and are followed by further parameters: a product of parametrised gates among the
-    # operations, a linear combination whose first term is itself a linear combination
-    _tape([_op("Prod", sub=[_op("Rot", 1, 2, 3), _op("RY", 4)]), _op("RX", 5)],
+    # operands that carry several parameters (or none) and are followed by further parameters: a product of parametrised and
+    # fixed gates among the operations, a linear combination whose first term is itself a linear combination
+    _tape([_op("Prod", sub=[_op("Rot", 1, 2, 3), _op("CNOT"), _op("RY", 4)]), _op("RX", 5)],
           [_op("Ham", 6, 9, sub=[_op("Ham", 7, 8, sub=[_op("X"), _op("Y")]), _op("Z")])], "{1,4,6,8}"),
     # a linear combination with a two-parameter term (sum of scaled observables), a parameter-free term and a one-parameter term,
     # behind an adjoint operation
@@ -380,11 +381,11 @@ WALK_BASES = [
     {"ops": [_n("RZ", 1), _n("Rot", 2, 3, 4)], "meas": [_ns(5), _n("probs")], "tr": [4], "shots": 10},
     {"ops": [_n("IsingXX", 1), _n("RX", 2), _n("U3", 3, 4, 5)], "meas": [_ns2(6, 7)], "tr": [0, 2, 6], "shots": 0},
     # nested operators: operands with several parameters followed by further parameters
-    {"ops": [_n("RX", 1), _n("Prod", sub=[_n("Rot", 2, 3, 4), _n("RY", 5)])],
+    {"ops": [_n("RX", 1), _n("Prod", sub=[_n("Rot", 2, 3, 4), _n("CNOT"), _n("RY", 5)])],
      "meas": [_n("Ham", 6, 9, sub=[_n("Ham", 7, 8, sub=[_n("X"), _n("Y")]), _n("Z")])], "tr": [1, 4, 6, 8], "shots": 0},
     {"ops": [_n("Adjoint", sub=[_n("Rot", 1, 2, 3)]), _n("CNOT")],
      "meas": [_n("Ham", 4, 7, 8, sub=[_ns2(5, 6), _n("Z"), _ns(9, "Y")]), _n("Z")], "tr": [0, 4, 6, 8], "shots": 50},
-    {"ops": [_n("RY", 1)], "meas": [_ns(2, "Y"), _n("Ham", 3, 7, sub=[_n("Prod", sub=[_ns(4, "X"), _ns(5, "Z"), _n("Y")]), _ns(8, "X")])],
+    {"ops": [_n("RY", 1)], "meas": [_ns(2, "Y"), _n("Ham", 3, 7, sub=[_n("Prod", sub=[_ns(4, "X"), _n("Y"), _ns(5, "Z")]), _ns(8, "X")])],
      "tr": [1, 3, 4], "shots": 0},
     {"ops": [_n("Prod", sub=[_n("RX", 1), _n("U3", 2, 3, 4), _n("RZ", 5)]), _n("RY", 6)],
      "meas": [_n("SProd", 7, sub=[_n("Ham", 8, 9, sub=[_n("X"), _n("Z")])])], "tr": [2, 6, 8], "shots": 0},
@@ -672,6 +673,8 @@ def run(tier, seed):
         "indices are passed sorted to bind_new_parameters (every call site does)",
         "trainability through an expansion is read the way the workflow reads it: requires_grad flags on the parameters "
         "(qp.math.get_trainable_indices); qp.transforms.decompose recomputes explicit index lists, which is counted, not judged",
+        "operators nest (Hamiltonian, SProd, Sum, Prod, Adjoint; terms with 0, 1 and several parameters) but every parameter is a scalar: "
+        "matrix-valued term parameters (Hermitian) are not generated",
         "parameter values are scalars 0.1*k; provenance through a decomposition is told by absolute value (pass-through or negation)"])
 
 
